@@ -1033,6 +1033,28 @@ func (n *cnode) fetch() []types.Transaction {
 	w.run.Count("get")
 	w.ops = append(w.ops, "get")
 	w.run.Op("get", orDash(strings.Join(parts, " ")), len(r.Txs) > 0)
+	// a fetch under a block body size limit (which accounts make it depends on the map order): whatever is handed out
+	// must still be, per account, the run state+1, state+2, ... with no transaction left out in the middle. Payloads
+	// of 0..500 bytes make the sizes differ. Oracle only.
+	if len(r.Txs) > 1 && w.rng.Chance(1, 2) {
+		limit := uint32(150 + w.rng.Intn(1200))
+		c := n.ask(message.MemPoolSvc, &message.MemPoolGet{MaxBlockBodySize: limit}).(*message.MemPoolGetRsp)
+		next := map[int]uint64{}
+		for _, t := range c.Txs {
+			a, _ := w.senderIdx(t.GetTx())
+			if _, ok := next[a]; !ok {
+				next[a] = w.best.st[a].nonce + 1
+			}
+			if t.GetBody().GetNonce() != next[a] {
+				w.run.Fail(fmt.Sprintf("size-limited fetch (%d bytes): account %d is handed nonce %d where %d is due", limit, a, t.GetBody().GetNonce(), next[a]),
+					map[string]interface{}{"node_ops": n.replay()})
+				break
+			}
+			next[a]++
+		}
+		w.run.Eval(fmt.Sprintf("getcap %d %d %v", limit, len(c.Txs), len(w.ops)), len(c.Txs) > 0)
+		w.run.Count("get-size-limited")
+	}
 	return r.Txs
 }
 
